@@ -5,6 +5,7 @@ import numpy as np
 from ..core import violation, Discard, ddmin_list
 from ..gen_scenes import gen_chain_scene, gen_rod_scene, gen_contact_scene, add_knife_edge
 from ..scenes import build
+from .. import rot
 from ..seams import Sim
 from ..session import DYNAMIC, gen_solver, project_velocities, run_solver, solver_options, check_solution_shape, require_regular
 
@@ -24,6 +25,7 @@ RULE = (
     "non-trivial = at least one bilateral constraint and >= 10 stored steps"
 )
 RULE += " Joint parents may be the second partner; drives may start from rest; a fifth of the sessions use very fine steps (1e-5..3e-4); Cosserat-rod sessions (all formulations, clamped / hinged to origin / moving frame / carrying a body) monitor the rod's internal constraints and nodal quaternions; sessions may carry a user-defined nonholonomic constraint (gamma rows of all solvers); sessions with forced fixed-point / Newton failures and continue_with_unconverged check the quaternion clause on the steps stored after a failure (sphere-plane and sphere-sphere contacts)."
+RULE += " A third of the sessions of the nonsmooth steppers carry an unrelated ball lying on a floor (closed contact): contact iterations and bilateral constraints meet in the same steps."
 COMPONENTS = {
     "real": ["all six dynamic solvers", "System", "all joints / force elements", "fsolve", "scipy / scipy_dae back ends"],
     "stub": ["tqdm -> SimProgress (step seam)", "stdout/warnings captured"],
@@ -102,7 +104,25 @@ def gen(rng, tier, index):
     add_knife_edge(rng, scene, prob=0.35)
     if rng.random() < 0.35:
         scene["t0"] = float(np.round(rng.uniform(-3.0, 8.0), 3))  # the time origin is arbitrary (continuation runs, shifted drives)
+    if name in ("Moreau", "Rattle", "BackwardEuler", "DualStormerVerlet") and (index // len(DYNAMIC)) % 3 == 1 and not scene.get("rods"):
+        add_bystander_contact(scene, index)
     return {"scene": scene, "solver": solver}
+
+
+def add_bystander_contact(scene, index):
+    """An unrelated ball lying on a floor far away from the mechanism (pressed on it by gravity, or just touching when
+    there is none): the nonsmooth steppers then run their contact iterations in the same steps in which the bilateral
+    constraints of the mechanism are imposed."""
+    g = np.array(scene.get("gravity") if scene.get("gravity") is not None else [0.0, 0.0, 0.0], dtype=float)
+    n = -g / np.linalg.norm(g) if np.linalg.norm(g) > 0 else np.array([0.0, 0.0, 1.0])
+    t1 = np.cross(n, [1.0, 0.0, 0.0] if abs(n[0]) < 0.9 else [0.0, 1.0, 0.0])
+    t1 /= np.linalg.norm(t1)
+    A = np.column_stack([t1, np.cross(n, t1), n])
+    P = np.array([7.0, -6.0, 5.0])
+    rad = 0.2
+    scene["bodies"].append({"kind": "point", "m": 1.0, "r": (P + rad * n).tolist(), "v": [0.0, 0.0, 0.0]})
+    scene.setdefault("contacts", []).append({"type": "s2p", "plane": {"r": P.tolist(), "p": rot.mat_to_quat(A).tolist()}, "body": len(scene["bodies"]) - 1, "radius": rad, "mu": [0.0, 0.3][index % 2], "eN": 0.0, "eF": 0.0})
+    scene["bystander_contact"] = True
 
 
 def _sig(plan):
@@ -259,6 +279,8 @@ def monitor(R, out, log, quat_only=False, failed_steps=()):
                 return
     log.ev("worst", name, worst["g"], worst["g_dot"], worst["mid"], worst["quat"])
     out["probes"][f"ran_{name}"] += 1
+    if B.scene.get("bystander_contact"):
+        out["probes"]["bystander_contact_session"] += 1
     if getattr(B, "nonholonomic", None):
         out["probes"]["nonholonomic_session"] += 1
     if B.scene.get("t0", 0.0) != 0.0:
